@@ -230,3 +230,97 @@ class MGHSeam:
         self.tried = 0
         self.best = None
         self.last_perm = None
+
+
+# --------------------------------------------------------------------------------------------
+# joblib worker completion order (explorer C)
+# --------------------------------------------------------------------------------------------
+class _SchedJob:
+    def __init__(self, backend, func, callback):
+        self.backend, self.func, self.callback = backend, func, callback
+        self.done = False
+        self.result = None
+        self.exc = None
+
+    def run(self):
+        try:
+            self.result = self.func()
+        except BaseException as e:  # noqa: BLE001
+            self.exc = e
+        self.done = True
+        if self.callback is not None:
+            self.callback(self)
+
+    def get(self, timeout=None):
+        while not self.done:
+            self.backend.run_one()
+        if self.exc is not None:
+            raise self.exc
+        return self.result
+
+
+def make_sched_backend():
+    """A joblib backend that queues submitted batches and, when a result is first needed, completes
+    the pending batches in an order chosen by the explorer (JoblibSeam.chooser)."""
+    from joblib._parallel_backends import ParallelBackendBase
+
+    class SchedBackend(ParallelBackendBase):
+        supports_retrieve_callback = False
+        uses_threads = True
+        supports_sharedmem = True
+
+        def configure(self, n_jobs=1, parallel=None, **kw):
+            self.parallel = parallel
+            self.pending = []
+            JoblibSeam.current.configured += 1
+            return self.effective_n_jobs(n_jobs)
+
+        def effective_n_jobs(self, n_jobs):
+            if n_jobs is None:
+                return 1
+            if n_jobs < 0:
+                return 4
+            return max(1, n_jobs)
+
+        def submit(self, func, callback=None):
+            j = _SchedJob(self, func, callback)
+            self.pending.append(j)
+            JoblibSeam.current.max_pending = max(JoblibSeam.current.max_pending, len(self.pending))
+            return j
+
+        def run_one(self):
+            k = len(self.pending)
+            i = JoblibSeam.current.chooser.choose("complete", k) if k > 1 else 0
+            j = self.pending.pop(i)
+            JoblibSeam.current.completions += 1
+            j.run()
+
+        def retrieve_result(self, out, timeout=None):
+            return out.get()
+
+        def abort_everything(self, ensure_ready=True):
+            self.pending = []
+
+    return SchedBackend
+
+
+class JoblibSeam:
+    current = None
+
+    def __init__(self):
+        self.chooser = None
+        self.configured = 0
+        self.max_pending = 0
+        self.completions = 0
+        self._registered = False
+
+    @contextlib.contextmanager
+    def installed(self):
+        import joblib
+
+        if not self._registered:
+            joblib.register_parallel_backend("verif-sched", make_sched_backend())
+            self._registered = True
+        JoblibSeam.current = self
+        with joblib.parallel_config(backend="verif-sched"):
+            yield self
